@@ -91,6 +91,20 @@ where
 {
     let mut r = runner(seed);
     let stream = stream_of_seed(&seed);
+    if REGEN_ON.load(Ordering::Relaxed) {
+        if stream != REGEN_STREAM.load(Ordering::Relaxed) {
+            return false;
+        }
+        let index = REGEN_INDEX.load(Ordering::Relaxed);
+        let mut last = None;
+        for _ in 0..=index.min(cases.saturating_sub(1)) {
+            last = Some(strat.new_tree(&mut r).expect("generator").current());
+        }
+        if let Some(c) = last {
+            *REGEN_OUT.lock().unwrap() = Some(to_replay(&c));
+        }
+        std::panic::resume_unwind(Box::new("regen done"));
+    }
     for case_index in 0..cases {
         slot_begin(stream, case_index);
         let mut tree = match strat.new_tree(&mut r) {
@@ -206,11 +220,33 @@ pub fn set_my_shard(shard: usize) {
 /// the stream id is carried in the seed's last byte pair by `derive_seed` users: (shard, stream) are known to the
 /// caller; the driver only needs the stream, which callers encode through `tag_seed`
 pub fn tag_seed(mut seed: [u8; 32], stream: u64) -> [u8; 32] {
+    seed[30] = (stream >> 8) as u8;
     seed[31] = stream as u8;
     seed
 }
 fn stream_of_seed(seed: &[u8; 32]) -> u64 {
-    seed[31] as u64
+    ((seed[30] as u64) << 8) | seed[31] as u64
+}
+
+// ---- generic regeneration of a case from (shard, stream, index): the property's own `run` is executed with this
+// target set; `parallel` then runs the target shard only and `drive` generates — without executing anything — up to
+// the index in the stream whose tag matches, hands the case over and unwinds
+
+pub static REGEN_ON: AtomicBool = AtomicBool::new(false);
+static REGEN_SHARD: AtomicU64 = AtomicU64::new(0);
+static REGEN_STREAM: AtomicU64 = AtomicU64::new(0);
+static REGEN_INDEX: AtomicU64 = AtomicU64::new(0);
+static REGEN_OUT: std::sync::Mutex<Option<Value>> = std::sync::Mutex::new(None);
+
+pub fn regen_via_run(shard: usize, stream: u64, index: u64, run: impl FnOnce()) -> Option<Value> {
+    REGEN_SHARD.store(shard as u64, Ordering::SeqCst);
+    REGEN_STREAM.store(stream, Ordering::SeqCst);
+    REGEN_INDEX.store(index, Ordering::SeqCst);
+    *REGEN_OUT.lock().unwrap() = None;
+    REGEN_ON.store(true, Ordering::SeqCst);
+    let _ = guarded(run);
+    REGEN_ON.store(false, Ordering::SeqCst);
+    REGEN_OUT.lock().unwrap().take()
 }
 
 pub fn slot_begin(stream: u64, index: u64) {
@@ -238,9 +274,13 @@ pub fn slot_end() {
 /// runs `f(shard, acc)` on `cx.shards` threads with large stacks and merges the accumulators
 pub fn parallel(cx: &Cx, f: &(dyn Fn(usize, &mut Acc) + Sync)) -> Acc {
     let mut total = Acc::new();
+    let only = if REGEN_ON.load(Ordering::Relaxed) { Some(REGEN_SHARD.load(Ordering::Relaxed) as usize) } else { None };
     std::thread::scope(|s| {
         let mut hs = Vec::new();
         for shard in 0..cx.shards {
+            if only.map(|o| o != shard).unwrap_or(false) {
+                continue;
+            }
             let h = std::thread::Builder::new()
                 .stack_size(256 << 20)
                 .spawn_scoped(s, move || {
